@@ -287,6 +287,15 @@ UNITS['U06k'] = dict(
                  'dictionary entries are sorted and distinct (mapping.sort_unstable() after a HashSet, A-std-sort)'],
     not_covered=['dictionary construction (fast_build_string_column)', 'LIKE / regex'])
 
+UNITS['U04d'] = dict(
+    kind='kani', crate='kani/U04d', timeout_s=900,
+    title='BOUNDED (3 rows, all values): element-wise arms of the free fn column::decode used by compaction - Add / ToI64 / Delta for u8,u16,u32 and Delta(I64) (statement and expression slices)',
+    harnesses=[dict(name='proofs::decode_%s' % t, bounded='3 rows, unwind 5', unwind=5, clause='Add: stored + offset; ToI64: stored; Delta: running sum', fn='column::decode[slices %s]' % t) for t in ('u8', 'u16', 'u32')]
+    + [dict(name='proofs::decode_delta_i64', bounded='3 rows, unwind 5', unwind=5, clause='Delta(I64): running sum', fn='column::decode[slice i64]'),
+       dict(name='proofs::vx_canary', expect_fail=True)],
+    assumptions=['R10: `arg0: &dyn Data` replaced by a typed view with the same cast_ref_* accessor', 'the stack machine of decode (order of ops, Nullable, PushDataSection, DictLookup, LZ4, Pco, UnpackStrings arms) is not covered'],
+    not_covered=['column::decode control structure (section stack), string / compression arms, `UnhexpackStrings => todo!()`'])
+
 PROPS = {
     'C14': dict(level='proof', units=['U14v', 'U14b'],
                 level_text='Verus proof that the envelope check accepts a file iff it is intact (for all byte strings: truncated, extended, flipped version / length / payload under A-sha), and that store writes exactly the envelope',
@@ -299,7 +308,7 @@ PROPS = {
                 technique='contract-based deductive verification (Kani complete + bounded harnesses) of extracted slices',
                 explanation='U13k: loop-free harnesses over all (limit, offset, len) - complete. U21k: literals of at most 4 characters over 0-9 . e - (bounded). Everything else about query strings is outside the reach of contracts on this code base.',
                 assumptions=[], not_covered=['sqlparser', 'convert_to_native_expr', 'BatchResult::validate', 'unknown tables / columns handling']),
-    'C07': dict(level='proof', units=['U02', 'U03', 'U04k', 'U04v'],
+    'C07': dict(level='proof', units=['U02', 'U03', 'U04k', 'U04v', 'U04d'],
                 level_text='Verus proofs of the column rebuild kernels used by compaction: ColumnBuffer append with null maps (incl. the incoming-null-map path that only compaction takes), string packing round trip, integer encode / delta / decode kernels; complete Kani proof of the width/offset choice',
                 level_note='plan_compaction, Table::compact swap, eviction / reload (LRU), and the free stack-machine column::decode over dyn Data are not covered; see known findings',
                 technique='contract-based deductive verification (Verus + Kani complete) of extracted functions and slices',
